@@ -636,6 +636,35 @@ func (k *vKit) elect(n string, reach bool, lag map[string]bool) string {
 	return res
 }
 
+// pauseResume commits PAUSE_STREAM and RESUME_STREAM: every live replica closes its
+// partition and replaces it by a new object built from the current metadata; the
+// leader resumes first so that the followers can reconcile against it.
+func (k *vKit) pauseResume() string {
+	pause := k.commit(&proto.RaftLog{Op: proto.Op_PAUSE_STREAM, PauseStreamOp: &proto.PauseStreamOp{
+		Stream: k.stream, Partitions: []int32{0}}})
+	resume := k.commit(&proto.RaftLog{Op: proto.Op_RESUME_STREAM, ResumeStreamOp: &proto.ResumeStreamOp{
+		Stream: k.stream, Partitions: []int32{0}}})
+	ids := k.upIDs()
+	sort.Slice(ids, func(i, j int) bool { return ids[i] == k.leader && ids[j] != k.leader })
+	for _, id := range ids {
+		if err := k.applyTo(id, pause, false); err != nil {
+			return "apply-error:" + err.Error()
+		}
+	}
+	for _, id := range ids {
+		if err := k.applyTo(id, resume, false); err != nil {
+			return "apply-error:" + err.Error()
+		}
+		// a clean close checkpoints the HW
+		if p := k.part(id); p != nil {
+			k.hwDisk[id] = p.log.HighWatermark()
+		}
+	}
+	k.waitParked()
+	k.settle()
+	return ""
+}
+
 // applyMeta lets a lagging follower apply the operations it has not seen yet.
 func (k *vKit) applyMeta(f string) string {
 	if _, ok := k.srv[f]; !ok {
@@ -914,6 +943,8 @@ func (k *vKit) step(id int, step map[string]interface{}) vRepEvent {
 		}
 		args["n"], args["reach"], args["lag"] = vStr(step, "n"), vBool(step, "reach"), lagList
 		res = k.elect(vStr(step, "n"), vBool(step, "reach"), lag)
+	case "PauseResume":
+		res = k.pauseResume()
 	case "AwaitTick":
 		// wait for the next health check of follower f by the current leader and
 		// record the decision it took; the requests it makes to the controller are
